@@ -191,3 +191,214 @@ def gen_history(rng, k):
         for h in range(n_real):
             ops.extend([('consume', h)] * backlog)
     return wos, ops, strict
+
+
+# ---------------------------------------------------------------- histories with application handlers
+# Additional ops: ('cevent', h, eio, ns, event, arg)  the client sends EVENT [event, arg]
+#                 ('cdisc', h, eio, ns)               the client sends DISCONNECT for the namespace
+#                 ('lose', h, eio, reason)            the transport is lost (all its namespaces go)
+# and an application `app` (see drivers/cluster.py::install_app): connect / disconnect / event handlers, as
+# functions or as a class-based namespace, that call enter_room / leave_room / rooms / emit / close_room /
+# disconnect for their own client or for another sid.
+SELF = ('self',)
+EVENTS = ['ev', 'go']
+REASONS = ['transport close', 'transport error', 'ping timeout']
+HARGS = [None, 1, 'x', 'hello', [1, 2], {'a': 1}, 0, True, [], {'k': [1, {'z': None}]}]      # unchanged by a JSON round trip
+
+
+class HKnobs:
+    def __init__(self, **kw):
+        self.n_ops = 16
+        self.delayed = False
+        self.final_drain = 0.5
+        self.w = {'connect': 2.0, 'enter': 2.0, 'leave': 1.0, 'close_room': 0.4, 'emit': 1.5, 'cevent': 3.0,
+                  'cdisc': 2.0, 'lose': 1.5, 'disconnect': 2.0, 'consume': 0.0}
+        self.__dict__.update(kw)
+
+
+def gen_actions(rng, kind, n_sids=6):
+    """The body of one handler.  Disconnect handlers do what applications do there: leave rooms, move the
+    client to another room, look at rooms(sid), tell the others."""
+    def who():
+        return None if rng.random() < 0.7 else 'S%d' % rng.randrange(n_sids)
+
+    def room(allow_none=False):
+        r = rng.random()
+        if r < 0.15:
+            return SELF
+        if allow_none and r < 0.3:
+            return None
+        return rng.choice(ROOMS)
+
+    def one():
+        if kind == 'connect':
+            w = {'enter': 5, 'rooms': 2, 'emit': 2, 'leave': 1, 'close_room': 0.3, 'disconnect': 0.3}
+        elif kind == 'disconnect':
+            w = {'leave': 5, 'enter': 3, 'rooms': 4, 'emit': 2, 'close_room': 0.7, 'disconnect': 1}
+        else:
+            w = {'enter': 3, 'leave': 3, 'rooms': 3, 'emit': 2, 'close_room': 0.7, 'disconnect': 1.5}
+        ks = sorted(w)
+        a = rng.choices(ks, [w[x] for x in ks])[0]
+        if a in ('enter', 'leave'):
+            return (a, who(), room())
+        if a == 'rooms':
+            return ('rooms', who())
+        if a == 'emit':
+            return ('emit', rng.choice(['note', 'bye']), rng.choice(DATA), room(True), rng.random() < 0.5)
+        if a == 'close_room':
+            return ('close_room', room())
+        return ('disconnect', who())
+    n = rng.choice([0, 1, 1, 2] if kind == 'connect' else [1, 2, 2, 3, 4] if kind == 'disconnect' else [1, 2, 3])
+    return [one() for _ in range(n)]
+
+
+def gen_app(rng):
+    style, handlers = {}, {}
+    for ns in ('/', '/n'):
+        if rng.random() < 0.1:
+            continue                                        # a namespace without any handler
+        style[ns] = rng.choice(['fn', 'cls'])
+        t = {}
+        if rng.random() < 0.7:
+            t['connect'] = gen_actions(rng, 'connect')
+        if rng.random() < 0.9:
+            t['disconnect'] = gen_actions(rng, 'disconnect')
+        for ev in EVENTS:
+            if rng.random() < 0.8:
+                t[ev] = gen_actions(rng, 'event')
+        handlers[ns] = t
+    return {'style': style, 'handlers': handlers}
+
+
+def gen_handler_history(rng, k):
+    """(wos, ops, app)"""
+    n_real = rng.choice([2, 2, 3])
+    n_wo = rng.choice([0, 0, 1])
+    wos = [False] * n_real + [True] * n_wo
+    app = gen_app(rng)
+    ops = []
+    next_sid = [0]
+    clients = {}            # sid -> dict(eio, ns, host, alive)   (optimistic shadow)
+    eio_host = {}           # live transports
+    n_eio = [0]
+
+    def live():
+        return [s for s, c in clients.items() if c['alive']]
+
+    def any_host():
+        return rng.randrange(n_real)
+
+    def pick_sid(p_dead=0.12):
+        lv = live()
+        dead = [s for s in clients if not clients[s]['alive']]
+        if lv and (rng.random() > p_dead or not dead):
+            return rng.choice(lv)
+        if dead and rng.random() < 0.7:
+            return rng.choice(dead)
+        return 'S%d' % (next_sid[0] + rng.randrange(3))
+
+    def host_for(sid, p_remote=0.5):
+        c = clients.get(sid)
+        if c is None or rng.random() < p_remote:
+            return any_host()
+        return c['host']
+
+    def ns_of(sid):
+        c = clients.get(sid)
+        if c is None or rng.random() < 0.05:
+            return rng.choice(NSS)
+        return None if c['ns'] == '/' and rng.random() < 0.7 else c['ns']
+
+    def do_connect():
+        if eio_host and rng.random() < 0.35:
+            eio = rng.choice(sorted(eio_host))
+            h = eio_host[eio]
+        else:
+            eio = 'e%d' % n_eio[0]
+            n_eio[0] += 1
+            h = any_host()
+        ns = rng.choice(NSS)
+        eio_host[eio] = h
+        dup = any(c['alive'] and c['eio'] == eio and c['ns'] == nsn(ns) for c in clients.values())
+        sid = 'S%d' % next_sid[0]
+        next_sid[0] += 1                                  # generate_id() is called even for a refused duplicate
+        if not dup:
+            clients[sid] = {'eio': eio, 'ns': nsn(ns), 'host': h, 'alive': True}
+        ops.append(('connect', h, eio, ns))
+
+    def pick_conn():
+        """(host, eio, ns) of a live client, sometimes of one that is gone or never existed"""
+        lv = live()
+        if lv and rng.random() < 0.9:
+            c = clients[rng.choice(lv)]
+        elif clients:
+            c = clients[rng.choice(sorted(clients))]
+        else:
+            return any_host(), 'e0', None
+        ns = None if c['ns'] == '/' and rng.random() < 0.7 else c['ns']
+        if rng.random() < 0.05:
+            ns = rng.choice(NSS)
+        return c['host'], c['eio'], ns
+
+    def kill(pred):
+        for c in clients.values():
+            if c['alive'] and pred(c):
+                c['alive'] = False
+
+    w = dict(k.w)
+    if k.delayed:
+        w['consume'] = 7.0
+    kinds = sorted(w)
+    weights = [w[x] for x in kinds]
+    for _ in range(rng.choice([2, 3, 3, 4])):
+        do_connect()
+    # directed prefix (half of the histories): some clients are put in rooms first, so that the handlers'
+    # leave_room / rooms / emit have something to act on
+    if rng.random() < 0.5:
+        for sid in live():
+            if rng.random() < 0.7:
+                ops.append(('enter', host_for(sid), sid, ns_of(sid), rng.choice(ROOMS)))
+    while len(ops) < k.n_ops:
+        kind = rng.choices(kinds, weights)[0]
+        if kind == 'connect':
+            if len(clients) < 6:
+                do_connect()
+        elif kind == 'enter':
+            sid = pick_sid()
+            ops.append(('enter', host_for(sid), sid, ns_of(sid), rng.choice(ROOMS)))
+        elif kind == 'leave':
+            sid = pick_sid()
+            ops.append(('leave', host_for(sid), sid, ns_of(sid), rng.choice(ROOMS)))
+        elif kind == 'close_room':
+            ops.append(('close_room', any_host(), rng.choice(NSS), rng.choice(ROOMS)))
+        elif kind == 'emit':
+            h = rng.randrange(n_real + n_wo)
+            r = rng.random()
+            room = None if r < 0.2 else rng.choice(ROOMS) if r < 0.7 else pick_sid()
+            skip = None if rng.random() < 0.7 else pick_sid()
+            ops.append(('emit', h, rng.choice(['news', 'm']), rng.choice(DATA), rng.choice(NSS), room, skip, None))
+        elif kind == 'cevent':
+            h, eio, ns = pick_conn()
+            ops.append(('cevent', h, eio, ns, rng.choice(EVENTS + ['nohandler'] if rng.random() < 0.1 else EVENTS),
+                        rng.choice(HARGS)))
+        elif kind == 'cdisc':
+            h, eio, ns = pick_conn()
+            ops.append(('cdisc', h, eio, ns))
+            kill(lambda c: c['eio'] == eio and c['ns'] == nsn(ns))
+        elif kind == 'lose':
+            if not eio_host:
+                continue
+            eio = rng.choice(sorted(eio_host))
+            ops.append(('lose', eio_host.pop(eio), eio, rng.choice(REASONS)))
+            kill(lambda c: c['eio'] == eio)
+        elif kind == 'disconnect':
+            sid = pick_sid(0.15)
+            ops.append(('disconnect', host_for(sid), sid, ns_of(sid)))
+            kill(lambda c: c is clients.get(sid))
+        elif kind == 'consume':
+            ops.append(('consume', any_host()))
+    if k.delayed and rng.random() < k.final_drain:
+        backlog = 3 * sum(1 for o in ops if o[0] != 'consume')
+        for h in range(n_real):
+            ops.extend([('consume', h)] * backlog)
+    return wos, ops, app
